@@ -455,7 +455,10 @@ func VerifH_match_verbs() {
 	}
 	k := vfChoice(len(verbs) + 1)
 	if k == len(verbs) {
-		_, _, err := root.match("/aa/zz", "OTHER")
+		// verbs nobody bound, among them the standard methods that have no rule pattern kind of
+		// their own and spellings close to a bound one
+		unbound := []string{"OTHER", "HEAD", "OPTIONS", "TRACE", "CONNECT", "get", "GETS", "GE", ""}
+		_, _, err := root.match("/aa/zz", unbound[vfChoice(len(unbound))])
 		vfCheck(err != nil, "a verb that no rule carries was dispatched")
 		vfCover("unbound-verb")
 		return
